@@ -113,7 +113,15 @@ func runSolver(s Solver, file string, timeout time.Duration) (answer string, out
 	b, _ := cmd.CombinedOutput()
 	dur = time.Since(t0).Seconds()
 	out = string(b)
-	first := strings.TrimSpace(strings.SplitN(strings.TrimSpace(out), "\n", 2)[0])
+	first := ""
+	for _, ln := range strings.Split(strings.TrimSpace(out), "\n") {
+		ln = strings.TrimSpace(ln)
+		if ln == "" || strings.HasPrefix(ln, "WARNING:") {
+			continue // solver warnings (e.g. an unusable pattern) precede the answer
+		}
+		first = ln
+		break
+	}
 	switch {
 	case first == "unsat" || first == "sat" || first == "unknown":
 		answer = first
